@@ -199,6 +199,31 @@ def state_digest():
                 out['%s.%s' % (n, k)] = 'mod:' + v.__name__
             else:
                 out['%s.%s' % (n, k)] = _digest_value(v)
+    subclass_digest(out)
+    return out
+
+
+def subclass_digest(out=None):
+    """Registries of application subclasses of the yaml classes (defined outside the yaml package): they are class-level
+    state too, and a call must not change them either."""
+    import yaml
+    out = {} if out is None else out
+    seen = set()
+    todo = [yaml.reader.Reader, yaml.scanner.Scanner, yaml.parser.Parser, yaml.composer.Composer, yaml.constructor.BaseConstructor,
+            yaml.resolver.BaseResolver, yaml.representer.BaseRepresenter, yaml.serializer.Serializer, yaml.emitter.Emitter]
+    while todo:
+        c = todo.pop()
+        if c in seen:
+            continue
+        seen.add(c)
+        try:
+            todo.extend(c.__subclasses__())
+        except TypeError:
+            continue
+        if not getattr(c, '__module__', '').startswith('yaml'):
+            for a, av in list(vars(c).items()):
+                if a.startswith('yaml_') or isinstance(av, (dict, list, set)):
+                    out['app:%s.%s.%s' % (c.__module__, c.__qualname__, a)] = _digest_value(av)
     return out
 
 
